@@ -316,7 +316,7 @@ def random_histories(n, depth, seed):
             if op in ("get", "gets", "gat", "gats", "get_many", "gets_many"):
                 ev["nr"] = False
             if op in ("get_many", "gets_many", "delete_many"):
-                ev["keys"] = rnd.choice([["a", "b"], ["b", "a"], ["a"], ["b"]])
+                ev["keys"] = rnd.choice([["a", "b"], ["b", "a"], ["a"], ["b"], ["a", "a", "b"], ["b", "a", "b"]])
                 ev["k"] = ""
             if op == "set_many":
                 ev["items"] = [["a", rnd.choice(V)], ["b", rnd.choice(V)]]
